@@ -26,7 +26,7 @@ class C14(SeqProp):
         out = []
         while len(out) < n:
             mixed = r.choice([0.0, 0.0, 0.25, 0.5])
-            g = GatherGen(r, mixed=mixed)
+            g = GatherGen(r, mixed=mixed, overlap=0.15)
             out.append(g.run())
         return out
 
